@@ -4,7 +4,7 @@ Correspondence: the real sdk.Output is driven by scripted interleavings of pushe
 pulls (consumers direct / behind a pass-through adapter / behind push-based adapters).  Every
 call that reaches Output.get_data and every push is recorded at the Output boundary; the Coq
 model OutputM.run is evaluated on exactly that op sequence and must produce the same pull
-results and the same len(output.data) after every event.
+results, the same len(output.data) and the same retained publication times (Output.data) after every event.
 """
 from ..coqgen import B, C, L, N, NONE, P, Some, Z
 from .. import fin
@@ -254,6 +254,7 @@ def _run_impl(case, spill_dir):
         keys = list(reg.keys())
     key_idx = {id(k): i for i, k in enumerate(keys)}
     events = []
+    retained = []  # parallel to events: the publication times held in Output.data after the event
     real_get = out.get_data
     real_notify = out.notify_targets
 
@@ -264,12 +265,15 @@ def _run_impl(case, spill_dir):
             res = ["ok", int(round(fin.scalar_of(d)))]
         except Exception as e:  # noqa
             events.append(["pull", k, us_of(time), [err_class(e)], len(out.data)])
+            retained.append([us_of(t) for t, _d in out.data])
             raise
         events.append(["pull", k, us_of(time), res, len(out.data)])
+        retained.append([us_of(t) for t, _d in out.data])
         return d
 
     def notify_targets(time):
         events.append(["push", us_of(time), len(out.data)])
+        retained.append([us_of(t) for t, _d in out.data])
         return real_notify(time)
 
     out.get_data = get_data
@@ -302,7 +306,7 @@ def _run_impl(case, spill_dir):
         holders = {id(x): x for x in [out] + [a for a in adapters if a is not None]}.values()
         held = [d for x in holders for _t, d in getattr(x, "data", []) if isinstance(d, str)]
         spill = [sorted(os.listdir(spill_dir)), sorted(os.path.basename(h) for h in held)]
-    return {"spill": spill, "nkeys": len(keys), "key_kinds": kinds, "events": events, "user": user, "marks": marks, "cb": cb_log}
+    return {"spill": spill, "nkeys": len(keys), "key_kinds": kinds, "events": events, "retained": retained, "user": user, "marks": marks, "cb": cb_log}
 
 
 def _ops_from_events(obs):
@@ -336,7 +340,7 @@ def coq_case(case, obs):
 
 
 def coq_obs(case, obs):
-    return L(_ops_from_events(obs)[1])
+    return P(L(_ops_from_events(obs)[1]), L(L(Z(t) for t in ts) for ts in obs["retained"]))
 
 
 def _sim(obs):
